@@ -725,9 +725,17 @@ func ruleANYPATH1(c *Ctx) {
 	if f := p.Func("json.unmarshalValueAny"); f == nil {
 		c.Undecide("json.unmarshalValueAny", "function missing")
 	} else {
-		info := f.Info()
 		ok64, okStr := false, false
-		for _, call := range findAll[*ast.CallExpr](f.Body()) {
+		// the function and the private helpers it delegates scalar kinds to
+		var anyCalls []*ast.CallExpr
+		info := f.Info()
+		for _, g := range p.CalleeClosure(f, 1) {
+			if g != f && (g.Name == "json.unmarshalObjectAny" || g.Name == "json.unmarshalArrayAny") {
+				continue
+			}
+			anyCalls = append(anyCalls, findAll[*ast.CallExpr](g.Body())...)
+		}
+		for _, call := range anyCalls {
 			if FuncCall(info, call, "strconv", "ParseFloat") && len(call.Args) == 2 {
 				if v, isC := ConstI64(info, call.Args[1]); isC && v == 64 {
 					ok64 = true
